@@ -359,6 +359,44 @@ class ApiGen:
                 api.add_enum(e)
                 self.feat("enum")
             modules.append(m)
+        # a private mixin whose member names are the camelCase spellings of the snake_case members of its public subclass
+        # (legacy aliases): different Python names that CONVERT to the same stub name.  No random draws.
+        if modules and len(mod_ids) % 2 == 0:
+            m0 = modules[0]
+            path_public = not any(seg.startswith("_") for seg in m0.id.split("/"))
+            int_t = T_ = self.T.NamedType("int", "builtins.int")
+
+            def plain_fn(cid, name, public, prop=False, extra=None):
+                fid = f"{cid}/{name}"
+                ps = [A.Parameter(f"{fid}/self", "self", False, None, A.ParameterAssignment.IMPLICIT, D.ParameterDocstring(), None)]
+                if extra:
+                    ps.append(A.Parameter(f"{fid}/{extra}", extra, False, None, A.ParameterAssignment.POSITION_OR_NAME,
+                                          D.ParameterDocstring(), int_t))
+                f = A.Function(id=fid, name=name, docstring=D.FunctionDocstring(), is_public=public, is_static=False,
+                               is_class_method=False, is_property=prop, result_docstrings=[], type_var_types=[],
+                               results=[A.Result(f"{fid}/result_1", "result_1", int_t)], reexported_by=[], parameters=ps)
+                api.add_function(f)
+                return f
+
+            def plain_cls(name, supers, public, members):
+                cid = f"{m0.id}/{name}"
+                c = A.Class(id=cid, name=name, superclasses=supers, is_public=public, docstring=D.ClassDocstring())
+                for mn, prop, extra in members:
+                    c.add_method(plain_fn(cid, mn, public and not mn.startswith("_"), prop, extra))
+                api.add_class(c)
+                m0.add_class(c)
+                all_classes.append((name, cid.replace("/", "."), c))
+                return c
+            legacy = plain_cls("_ZzLegacy", [], False, [("zzGetName", False, None), ("zzSetName", False, "newValue"), ("zzItemCount", True, None)])
+            holder = plain_cls("ZzHolder", [legacy.id.replace("/", ".")], path_public,
+                               [("zz_get_name", False, None), ("zz_set_name", False, "new_value"), ("zz_item_count", True, None)])
+            # classes of ONE module of another library next to a class of a SUB-module whose dotted path sorts between them
+            # (tabular.Frame < tabular.IO.Reader < tabular.Series): the placeholder stub of `tabular` is written in two steps
+            for an, q in (("zz_frame", "tabular.Frame"), ("zz_reader", "tabular.IO.Reader"), ("zz_series", "tabular.Series")):
+                a = A.Attribute(f"{holder.id}/{an}", an, path_public, False, self.T.NamedType(q.split(".")[-1], q), D.AttributeDocstring())
+                holder.add_attribute(a)
+                api.add_attribute(a)
+            self.feat("legacy_camel_case_mixin")
         # __init__ modules with reexports
         inits = []
         for sp in subpkgs:
